@@ -3,6 +3,7 @@
 //! COMPLETE expected outputs; the Rust side only calls the real functions over the toy fields and
 //! compares element values for equality.
 #![allow(clippy::all)]
+mod batch;
 mod elem;
 mod fft;
 mod poly;
@@ -14,6 +15,7 @@ fn main() {
     let code = match args.get(1).map(|s| s.as_str()) {
         Some("poly") => poly::main(&args[2..]),
         Some("fft") => fft::main(&args[2..]),
+        Some("batch") => batch::main(&args[2..]),
         _ => {
             eprintln!("usage: wf-math <poly|fft|batch> <scenarios.ndjson> [threads,...]");
             2
